@@ -3,6 +3,7 @@ import Texel.Proofs.GenArith
 import Texel.Proofs.GenMathhelp
 import Texel.Proofs.GenLineInt
 import Texel.Proofs.GenQuadrants
+import Texel.Proofs.GenRoute
 import Texel.Proofs.NoCollapse
 /-! # C02 — each edge is routed through exactly the hot pixels it meets
 
@@ -37,6 +38,18 @@ theorem C02_routing (g : Grid) (hres : 0 < g.res) (hot : Nat → Quad → Bool) 
         p.x < 2 ^ l ∧ p.y < 2 ^ l ∧ (l = 0 ∨ hot l p = true) ∧ Meets L (g.box l p)) ∧
     (snapLevel lineIntersects g hot L l).Pairwise (fun a b => Precedes L (g.box l a) (g.box l b)) :=
   Texel.C02_routing g hot L hres hc l hl
+
+/-- **C02 (first sentence) on the current source**: the descent in which the per-parent step (`findIntersectingQuadrants`), the pixel test
+(`lineIntersects`, with `CmpProducts`) and the containment test (`containsPoint`) are the definitions regenerated from `/repo` on every run — only
+the loop over the levels and the look-up of the children are written by hand — returns, on every level, exactly the hot pixels the closed segment
+meets, in order of travel -/
+theorem C02_routing_source (g : Grid) (hres : 0 < g.res) (hot : Nat → Quad → Bool) (hc : HotClosed g.depth hot)
+    (L : Seg) (l : Nat) (hl : l ≤ g.depth) :
+    (∀ p, p ∈ GenRoute.snapLevelSrc g hot L l ↔
+        p.x < 2 ^ l ∧ p.y < 2 ^ l ∧ (l = 0 ∨ hot l p = true) ∧ Meets L (g.box l p)) ∧
+    (GenRoute.snapLevelSrc g hot L l).Pairwise (fun a b => Precedes L (g.box l a) (g.box l b)) := by
+  rw [GenRoute.snapLevelSrc_eq]
+  exact C02_routing g hres hot hc L l hl
 
 /-- the same for the hot sets the index really builds from a polygon's vertices -/
 theorem C02_routing_index (g : Grid) (hres : 0 < g.res) (addrs : List Quad) (L : Seg) (l : Nat) (hl : l ≤ g.depth) :
